@@ -282,6 +282,50 @@ def genflow(files):
     print(n, 'control-flow mutants')
 
 
+VARIANTS = {
+    'TransactionStatus': ['Initial', 'Executing', 'Executed', 'Validating', 'Unconfirmed', 'Conflict', 'Finality'],
+    'AccountStatus': ['LoadedNotExisting', 'Loaded', 'LoadedEmptyEIP161', 'InMemoryChange', 'Changed', 'Destroyed', 'DestroyedChanged', 'DestroyedAgain'],
+    'ReadVersion': ['Storage'],
+    'BeneficiaryMode': ['Immediate', 'Deferred'],
+    'NonceValidationPolicy': [],
+}
+
+
+def genvariant(files):
+    """sixth operator family: a unit variant of a state enum replaced by each other unit variant of the same enum"""
+    os.makedirs(OUT, exist_ok=True)
+    have = {m['id'] for m in load('mutants.jsonl')}
+    n = 0
+    with open(os.path.join(OUT, 'mutants.jsonl'), 'a') as out:
+        for rel in files:
+            p = os.path.join(core.REPO, rel)
+            if not os.path.exists(p):
+                continue
+            src, end = production_lines(p)
+            for i in range(end):
+                l = src[i]
+                code = l.split('//')[0]
+                if 'debug_assert' in code or 'assert!' in code or 'tracing::' in code:
+                    continue
+                k = 0
+                for en, vs in VARIANTS.items():
+                    for m in re.finditer(r'\b' + en + r'::([A-Za-z0-9]+)\b(?!\s*[({])', code):
+                        if m.group(1) not in vs:
+                            continue
+                        for v in vs:
+                            if v == m.group(1):
+                                continue
+                            k += 1
+                            new = code[:m.start(1)] + v + code[m.end(1):]
+                            mid = f'{rel}:{i+1}:var{k}'
+                            if mid in have:
+                                continue
+                            have.add(mid)
+                            out.write(json.dumps(dict(id=mid, file=rel, line=i + 1, op=f'{en}::{m.group(1)} -> {v}', old=l, new=new)) + '\n')
+                            n += 1
+    print(n, 'variant mutants')
+
+
 ALL_RULES = None
 
 
@@ -495,6 +539,8 @@ if __name__ == '__main__':
     limit = int(a[a.index('--limit') + 1]) if '--limit' in a else 0
     if cmd == 'gen':
         gen([x for x in a[1:] if x.startswith('src/')] or FILES)
+    elif cmd == 'genvariant':
+        genvariant([x for x in a[1:] if x.startswith('src/')] or FILES)
     elif cmd == 'genflow':
         genflow([x for x in a[1:] if x.startswith('src/')] or FILES)
     elif cmd == 'genargs':
